@@ -44,6 +44,12 @@ class Gen:
         return "id_" + t
 
     def opaque_lit(self, t, v=None):
+        # a quarter of the opaque operands PRINT their value when evaluated, which makes every multi-operand construct
+        # (binary operators, argument lists, struct and array literals, method calls) sensitive to evaluation order
+        if "eval-order" in self.feats and self.rng.below(4) == 0:
+            self.used_trs = getattr(self, "used_trs", set()) | {t}
+            self.count("tracer")
+            return Call("tr_" + t, I(t, self.lit_val(t) if v is None else v))
         return Call(self.idf(t), I(t, self.lit_val(t) if v is None else v))
 
     # ---- expressions of integer type t over the variables in scope
@@ -189,7 +195,13 @@ class Gen:
         name = self.rng.choice(list(self.structs))
         fields = self.structs[name]
         s = self.fresh("s")
-        out = [Let(s, TS(name), SLitL(name, [(f, self.expr(t, scope, 1)) for f, t in fields]))]
+        written = list(fields)
+        if "eval-order-struct" in self.feats and self.rng.below(2):        # initialisers in another order than the declaration
+            for a_ in range(len(written) - 1, 0, -1):
+                b_ = self.rng.below(a_ + 1)
+                written[a_], written[b_] = written[b_], written[a_]
+            self.count("struct-permuted")
+        out = [Let(s, TS(name), SLitL(name, [(f, self.expr(t, scope, 1)) for f, t in written]))]
         self.count("struct")
         f, t = self.rng.choice(fields)
         out.append(Set(Fld(V(s), f), self.expr(t, scope + [], 2)))
@@ -315,6 +327,7 @@ class Gen:
             self.used_ids.add(t)
             body.append(Print(Call(f, I("i32", 1 + self.rng.below(12)), Call("id_" + t, I(t, 1)))))
         ids = [opaque(t, "id_" + t) for t in sorted(self.used_ids)]
+        ids += [Fn("tr_" + t, [("x", t)], t, Print(V("x")), Ret(V("x"))) for t in sorted(getattr(self, "used_trs", set()))]
         return Prog(*(ids + self.decls + [Main(*body)]))
 
     def loop_fn(self, kind):
